@@ -28,79 +28,91 @@ macro "ginv_case" : tactic => `(tactic|
 
 theorem cstep_ginv_bSig {s s1 : St} {c : Nat} {g : Bool} {role : Role} {cl' : Closer} (hg : GInv s)
     (hc : COk s c ⟨g, role, .bSig⟩) (h : cstepFn s c ⟨g, role, .bSig⟩ = some (s1, cl')) : GInv s1 := by
-  obtain ⟨h1, h2, h3, h4, h5, h6, h7, h8, h9, h10, h11, h12, h13⟩ := hc
+  obtain ⟨h1, h2, h3, h4, h5, h6, h7, h8, h9, h10, h11, h12, h13, h14⟩ := hc
   obtain ⟨g1, g2, g3, g4, g5, g6, g7, g8, g9, g10, g11, g12, g13, g14⟩ := hg
   cases role <;> simp [allowed] at h1 <;> ginv_case <;> (cases g <;> simp_all)
 
 theorem cstep_ginv_bMedia {s s1 : St} {c : Nat} {g : Bool} {role : Role} {cl' : Closer} (hg : GInv s)
     (hc : COk s c ⟨g, role, .bMedia⟩) (h : cstepFn s c ⟨g, role, .bMedia⟩ = some (s1, cl')) : GInv s1 := by
-  obtain ⟨h1, h2, h3, h4, h5, h6, h7, h8, h9, h10, h11, h12, h13⟩ := hc
+  obtain ⟨h1, h2, h3, h4, h5, h6, h7, h8, h9, h10, h11, h12, h13, h14⟩ := hc
   obtain ⟨g1, g2, g3, g4, g5, g6, g7, g8, g9, g10, g11, g12, g13, g14⟩ := hg
   cases role <;> simp [allowed] at h1 <;> ginv_case <;> (cases g <;> simp_all)
 
 theorem cstep_ginv_bChannels {s s1 : St} {c : Nat} {g : Bool} {role : Role} {cl' : Closer} (hg : GInv s)
     (hc : COk s c ⟨g, role, .bChannels⟩) (h : cstepFn s c ⟨g, role, .bChannels⟩ = some (s1, cl')) : GInv s1 := by
-  obtain ⟨h1, h2, h3, h4, h5, h6, h7, h8, h9, h10, h11, h12, h13⟩ := hc
+  obtain ⟨h1, h2, h3, h4, h5, h6, h7, h8, h9, h10, h11, h12, h13, h14⟩ := hc
   obtain ⟨g1, g2, g3, g4, g5, g6, g7, g8, g9, g10, g11, g12, g13, g14⟩ := hg
   cases role <;> simp [allowed] at h1 <;> ginv_case <;> (cases g <;> simp_all)
 
 theorem cstep_ginv_bSctp {s s1 : St} {c : Nat} {g : Bool} {role : Role} {cl' : Closer} (hg : GInv s)
     (hc : COk s c ⟨g, role, .bSctp⟩) (h : cstepFn s c ⟨g, role, .bSctp⟩ = some (s1, cl')) : GInv s1 := by
-  obtain ⟨h1, h2, h3, h4, h5, h6, h7, h8, h9, h10, h11, h12, h13⟩ := hc
+  obtain ⟨h1, h2, h3, h4, h5, h6, h7, h8, h9, h10, h11, h12, h13, h14⟩ := hc
   obtain ⟨g1, g2, g3, g4, g5, g6, g7, g8, g9, g10, g11, g12, g13, g14⟩ := hg
   cases role <;> simp [allowed] at h1 <;> ginv_case <;> (cases g <;> simp_all)
 
 theorem cstep_ginv_bDtls {s s1 : St} {c : Nat} {g : Bool} {role : Role} {cl' : Closer} (hg : GInv s)
     (hc : COk s c ⟨g, role, .bDtls⟩) (h : cstepFn s c ⟨g, role, .bDtls⟩ = some (s1, cl')) : GInv s1 := by
-  obtain ⟨h1, h2, h3, h4, h5, h6, h7, h8, h9, h10, h11, h12, h13⟩ := hc
+  obtain ⟨h1, h2, h3, h4, h5, h6, h7, h8, h9, h10, h11, h12, h13, h14⟩ := hc
   obtain ⟨g1, g2, g3, g4, g5, g6, g7, g8, g9, g10, g11, g12, g13, g14⟩ := hg
   cases role <;> simp [allowed] at h1 <;> ginv_case <;> (cases g <;> simp_all)
 
 theorem cstep_ginv_bIce {s s1 : St} {c : Nat} {g : Bool} {role : Role} {cl' : Closer} (hg : GInv s)
     (hc : COk s c ⟨g, role, .bIce⟩) (h : cstepFn s c ⟨g, role, .bIce⟩ = some (s1, cl')) : GInv s1 := by
-  obtain ⟨h1, h2, h3, h4, h5, h6, h7, h8, h9, h10, h11, h12, h13⟩ := hc
+  obtain ⟨h1, h2, h3, h4, h5, h6, h7, h8, h9, h10, h11, h12, h13, h14⟩ := hc
   obtain ⟨g1, g2, g3, g4, g5, g6, g7, g8, g9, g10, g11, g12, g13, g14⟩ := hg
   cases role <;> simp [allowed] at h1 <;> ginv_case <;> (cases g <;> simp_all)
 
 theorem cstep_ginv_bUpdate {s s1 : St} {c : Nat} {g : Bool} {role : Role} {cl' : Closer} (hg : GInv s)
     (hc : COk s c ⟨g, role, .bUpdate⟩) (h : cstepFn s c ⟨g, role, .bUpdate⟩ = some (s1, cl')) : GInv s1 := by
-  obtain ⟨h1, h2, h3, h4, h5, h6, h7, h8, h9, h10, h11, h12, h13⟩ := hc
+  obtain ⟨h1, h2, h3, h4, h5, h6, h7, h8, h9, h10, h11, h12, h13, h14⟩ := hc
   obtain ⟨g1, g2, g3, g4, g5, g6, g7, g8, g9, g10, g11, g12, g13, g14⟩ := hg
   cases role <;> simp [allowed] at h1 <;> ginv_case <;> (cases g <;> simp_all)
 
 theorem cstep_ginv_bGraceful {s s1 : St} {c : Nat} {g : Bool} {role : Role} {cl' : Closer} (hg : GInv s)
     (hc : COk s c ⟨g, role, .bGraceful⟩) (h : cstepFn s c ⟨g, role, .bGraceful⟩ = some (s1, cl')) : GInv s1 := by
-  obtain ⟨h1, h2, h3, h4, h5, h6, h7, h8, h9, h10, h11, h12, h13⟩ := hc
+  obtain ⟨h1, h2, h3, h4, h5, h6, h7, h8, h9, h10, h11, h12, h13, h14⟩ := hc
   obtain ⟨g1, g2, g3, g4, g5, g6, g7, g8, g9, g10, g11, g12, g13, g14⟩ := hg
   cases role <;> simp [allowed] at h1 <;> ginv_case <;> (cases g <;> simp_all)
 
 theorem cstep_ginv_bFinish {s s1 : St} {c : Nat} {g : Bool} {role : Role} {cl' : Closer} (hg : GInv s)
     (hc : COk s c ⟨g, role, .bFinish⟩) (h : cstepFn s c ⟨g, role, .bFinish⟩ = some (s1, cl')) : GInv s1 := by
-  obtain ⟨h1, h2, h3, h4, h5, h6, h7, h8, h9, h10, h11, h12, h13⟩ := hc
+  obtain ⟨h1, h2, h3, h4, h5, h6, h7, h8, h9, h10, h11, h12, h13, h14⟩ := hc
   obtain ⟨g1, g2, g3, g4, g5, g6, g7, g8, g9, g10, g11, g12, g13, g14⟩ := hg
   cases role <;> simp [allowed] at h1 <;> ginv_case <;> (cases g <;> simp_all)
 
 theorem cstep_ginv_tail {s s1 : St} {c : Nat} {g : Bool} {role : Role} {cl' : Closer} (hg : GInv s)
     (hc : COk s c ⟨g, role, .tail⟩) (h : cstepFn s c ⟨g, role, .tail⟩ = some (s1, cl')) : GInv s1 := by
-  obtain ⟨h1, h2, h3, h4, h5, h6, h7, h8, h9, h10, h11, h12, h13⟩ := hc
+  obtain ⟨h1, h2, h3, h4, h5, h6, h7, h8, h9, h10, h11, h12, h13, h14⟩ := hc
   obtain ⟨g1, g2, g3, g4, g5, g6, g7, g8, g9, g10, g11, g12, g13, g14⟩ := hg
   cases role <;> simp [allowed] at h1 <;> ginv_case <;> (cases g <;> simp_all)
 
 theorem cstep_ginv_dG {s s1 : St} {c : Nat} {g : Bool} {role : Role} {cl' : Closer} (hg : GInv s)
     (hc : COk s c ⟨g, role, .dG⟩) (h : cstepFn s c ⟨g, role, .dG⟩ = some (s1, cl')) : GInv s1 := by
-  obtain ⟨h1, h2, h3, h4, h5, h6, h7, h8, h9, h10, h11, h12, h13⟩ := hc
+  obtain ⟨h1, h2, h3, h4, h5, h6, h7, h8, h9, h10, h11, h12, h13, h14⟩ := hc
   obtain ⟨g1, g2, g3, g4, g5, g6, g7, g8, g9, g10, g11, g12, g13, g14⟩ := hg
   cases role <;> simp [allowed] at h1 <;> ginv_case <;> (cases g <;> simp_all)
 
 theorem cstep_ginv_dC {s s1 : St} {c : Nat} {g : Bool} {role : Role} {cl' : Closer} (hg : GInv s)
     (hc : COk s c ⟨g, role, .dC⟩) (h : cstepFn s c ⟨g, role, .dC⟩ = some (s1, cl')) : GInv s1 := by
-  obtain ⟨h1, h2, h3, h4, h5, h6, h7, h8, h9, h10, h11, h12, h13⟩ := hc
+  obtain ⟨h1, h2, h3, h4, h5, h6, h7, h8, h9, h10, h11, h12, h13, h14⟩ := hc
+  obtain ⟨g1, g2, g3, g4, g5, g6, g7, g8, g9, g10, g11, g12, g13, g14⟩ := hg
+  cases role <;> simp [allowed] at h1 <;> ginv_case <;> (cases g <;> simp_all)
+
+theorem cstep_ginv_bJoin {s s1 : St} {c : Nat} {g : Bool} {role : Role} {cl' : Closer} (hg : GInv s)
+    (hc : COk s c ⟨g, role, .bJoin⟩) (h : cstepFn s c ⟨g, role, .bJoin⟩ = some (s1, cl')) : GInv s1 := by
+  obtain ⟨h1, h2, h3, h4, h5, h6, h7, h8, h9, h10, h11, h12, h13, h14⟩ := hc
+  obtain ⟨g1, g2, g3, g4, g5, g6, g7, g8, g9, g10, g11, g12, g13, g14⟩ := hg
+  cases role <;> simp [allowed] at h1 <;> ginv_case <;> (cases g <;> simp_all)
+
+theorem cstep_ginv_tJoin {s s1 : St} {c : Nat} {g : Bool} {role : Role} {cl' : Closer} (hg : GInv s)
+    (hc : COk s c ⟨g, role, .tJoin⟩) (h : cstepFn s c ⟨g, role, .tJoin⟩ = some (s1, cl')) : GInv s1 := by
+  obtain ⟨h1, h2, h3, h4, h5, h6, h7, h8, h9, h10, h11, h12, h13, h14⟩ := hc
   obtain ⟨g1, g2, g3, g4, g5, g6, g7, g8, g9, g10, g11, g12, g13, g14⟩ := hg
   cases role <;> simp [allowed] at h1 <;> ginv_case <;> (cases g <;> simp_all)
 
 theorem cstep_ginv_ucs {s s1 : St} {c : Nat} {g : Bool} {role : Role} {x : Pc} {cl' : Closer} (hg : GInv s)
     (hc : COk s c ⟨g, role, .ucs x⟩) (h : cstepFn s c ⟨g, role, .ucs x⟩ = some (s1, cl')) : GInv s1 := by
-  obtain ⟨h1, h2, h3, h4, h5, h6, h7, h8, h9, h10, h11, h12, h13⟩ := hc
+  obtain ⟨h1, h2, h3, h4, h5, h6, h7, h8, h9, h10, h11, h12, h13, h14⟩ := hc
   obtain ⟨g1, g2, g3, g4, g5, g6, g7, g8, g9, g10, g11, g12, g13, g14⟩ := hg
   cases role <;> simp [allowed] at h1 <;> ginv_case <;> (split <;> simp_all [closedFinal_snoc_closed])
 
@@ -127,6 +139,8 @@ theorem cstep_ginv {s s1 : St} {c : Nat} {cl cl' : Closer} (hg : GInv s) (hc : C
   case bUpdate => exact cstep_ginv_bUpdate hg hc h
   case bGraceful => exact cstep_ginv_bGraceful hg hc h
   case bFinish => exact cstep_ginv_bFinish hg hc h
+  case bJoin => exact cstep_ginv_bJoin hg hc h
+  case tJoin => exact cstep_ginv_tJoin hg hc h
   case tail => exact cstep_ginv_tail hg hc h
   case dG => exact cstep_ginv_dG hg hc h
   case dC => exact cstep_ginv_dC hg hc h
